@@ -51,7 +51,7 @@ func init() {
 			"complete cross product; non-trivial = owner with a non-empty path or holder with an explicit property",
 		Assumptions: []string{"'equivalent' is IRI.Equals with scheme check (validated separately by C14)", "actors are given a specific actor type (Person/Service)"},
 		Bound: func(string) string {
-			return "complete: 252 owners x 8 names (round trips) + 252 owners (negative) + holder matrix 4 forms x 8 names x 6 states (unset, IRI, collection, pages with partOf, collection with first/current) x 6 ids (same in both tiers)"
+			return "complete: 252 owners x 8 names (round trips) + 252 owners (negative) + holder matrix 4 forms x 8 names x 6 states (unset, IRI, collection, pages with partOf, collection with first/current) x 6 ids (same in both tiers); families added after round 5: DESIGN.md 8.11"
 		},
 		Shards: 8,
 		Run:    c15Run,
